@@ -630,6 +630,15 @@ def oracle_mount(s):
                 bad.append("call reached the unmounted member %d" % j)
                 continue
             full = fulls[0]
+            if name not in BULK:
+                # nested mounts: the filesystem mounted DEEPEST on the path owns it (an ancestor mount must not
+                # receive a path that lies below a mount point inside it)
+                for f in fulls:
+                    deeper = [mc for _k, mc in all_mounts if is_prefix(mc, f) and len(mc) > len(f) - len(r)]
+                    if deeper and related(f, meth):
+                        bad.append("member %d (mounted above) received %s(%r) = /%s although a filesystem is mounted deeper on that "
+                                   "path, at /%s" % (j, meth, path, "/".join(f), "/".join(max(deeper, key=len))))
+                        break
             if not any(related(f, meth) for f in fulls):
                 bad.append("member %d received %s(%r) = /%s, unrelated to the arguments %r"
                            % (j, meth, path, "/".join(full), op_paths(s.op)))
